@@ -51,6 +51,24 @@ class Tracer(object):
         return self.fid + r / 4.0
 
 
+class CountingIO(io.StringIO):
+    """a destination that counts the non-empty `write` calls that reach it"""
+
+    def __init__(self):
+        io.StringIO.__init__(self)
+        self.nwrites = 0
+
+    def write(self, text):
+        if text:
+            self.nwrites += 1
+        return io.StringIO.write(self, text)
+
+
+def _cls(n):
+    """write counts are compared as none / exactly one / several (a `print` to the destination is two `write` calls of the file object, one chunk of the model)"""
+    return min(n, 2)
+
+
 def _value(v, tracers):
     k = v[0]
     if k == "i":
@@ -130,12 +148,13 @@ def validate_writer(run, which, n=12):
             reqs.append(dict(op="gulp", pots=pots, cut=common.fq(cut), n=N))
             cases.append((pots, cut, N))
     answers = query_gen(reqs)
+    counts = query_gen([dict(r, op="writes_" + r["op"]) for r in reqs])
     bad = 0
-    for c, a in zip(cases, answers):
+    for c, a, nw in zip(cases, answers, counts):
         pots = c[0]
         tracers = dict((p["fid"], Tracer(p["fid"])) for p in pots)
         objs = [Potential(p["a"], p["b"], tracers[p["fid"]]) for p in pots]
-        buf = io.StringIO()
+        buf = CountingIO()
         try:
             if which == "lammps":
                 from atsim.potentials import _lammps_writeTABLE as m
@@ -154,6 +173,11 @@ def validate_writer(run, which, n=12):
         gen = a if a == "raised" else render(a, tracers)
         run.traces += 1
         run.dist["translator-validation/%s-writer" % which] += 1
+        if _cls(buf.nwrites) != _cls(nw):
+            bad += 1
+            if bad <= 2:
+                run.tie_broken("translator", "generated %s writer (destination mode) vs the real one" % which,
+                               "potentials %s grid %s: %d write call(s) reached the real destination, %d chunk(s) in the generated definition" % (pots, [str(x) for x in c[1:]], buf.nwrites, nw))
         if real != gen:
             bad += 1
             if bad <= 2:
@@ -281,8 +305,9 @@ def validate_eam_writer(run, which, n=10):
         reqs.append(req)
         cases.append((els, pots, nrho, drho, nr, dr, title, comments, cutoff))
     answers = query_gen(reqs)
+    counts = query_gen([dict(r, op="writes_" + r["op"]) for r in reqs])
     bad = 0
-    for (els, pots, nrho, drho, nr, dr, title, comments, cutoff), a in zip(cases, answers):
+    for (els, pots, nrho, drho, nr, dr, title, comments, cutoff), a, nw in zip(cases, answers, counts):
         tracers = {0: _Zero()}
         for e in els:
             for f in [e["embed"], e["dens"]] + [d["fid"] for d in e["densFS"]]:
@@ -292,7 +317,7 @@ def validate_eam_writer(run, which, n=10):
         eobjs = [EAMPotential(e["sp"], e["z"], float(Fr(e["mass"])), tracers[e["embed"]],
                               dict((d["to"], tracers[d["fid"]]) for d in e["densFS"]) if fs else tracers[e["dens"]], float(Fr(e["a0"])), e["lat"]) for e in els]
         pobjs = [Potential(p["a"], p["b"], tracers[p["fid"]]) for p in pots]
-        buf = io.StringIO()
+        buf = CountingIO()
         try:
             if which == "tabeam":
                 from atsim.potentials import _dlpoly_writeTABEAM as m
@@ -309,6 +334,11 @@ def validate_eam_writer(run, which, n=10):
         gen = a if a == "raised" else render(a, tracers)
         run.traces += 1
         run.dist["translator-validation/%s-writer" % which] += 1
+        if _cls(buf.nwrites) != _cls(nw):
+            bad += 1
+            if bad <= 2:
+                run.tie_broken("translator", "generated %s writer (destination mode) vs the real one" % which,
+                               "%d element(s), grids %s: %d write call(s) reached the real destination, %d chunk(s) in the generated definition" % (len(els), (nrho, str(drho), nr, str(dr)), buf.nwrites, nw))
         if real != gen:
             bad += 1
             if bad <= 2:
